@@ -16,7 +16,7 @@ RULE = (
     "estimands from turnout/dem/gop; integer baselines; residual patterns with exact ties, one dominant unit, all-equal "
     "residuals, swings near -40%; nonreporting units with partial counts above and below the swing prediction; "
     "outlier models on/off; in a quarter of the cases the config's baseline_pointer sends dem/gop to another column while "
-    "a decoy column named after the estimand is present). Oracle: R = modelled reporting rows of the returned unit table; m = weighted median of "
+    "a decoy column named after the estimand is present; in a quarter a few feed rows lack the count of an estimand that was not requested; in a quarter the baseline file also carries heavy, differently swinging units of a state outside the office's config). Oracle: R = modelled reporting units by the reference categorisation of the case; m = weighted median of "
     "(counted - (baseline+1))/(baseline+1) with weights baseline+1 in exact rational arithmetic; every nonreporting "
     "unit's prediction == round_half_even(max((baseline+1)(1+m), partial count)) (differing by 1 allowed only when the "
     "un-rounded reference is within 1e-6 of a half integer). Cases whose median is not unique with margin 1e-5 of the "
@@ -79,6 +79,27 @@ def _strategy(draw):
     # named after the estimand itself
     if draw(st.integers(0, 3)) == 0:
         case["ptr_alias"] = [e for e in ("dem", "gop") if draw(st.booleans())] or ["dem"]
+    # a count missing in a column that was NOT requested (e.g. gop still empty while dem is modelled) says nothing
+    # about the requested estimand: the unit stays what it is
+    other = [e for e in ("dem", "gop") if e not in case["req"]["estimands"]]
+    if other and draw(st.integers(0, 3)) == 0:
+        fed = [u for u in case["units"] if u.get("feed") is not None]
+        for u in fed[:: max(1, len(fed) // draw(st.integers(1, 4)))][:4]:
+            u["feed"]["nan"] = other[0]
+        case["nan_unrequested"] = other[0]
+    # a baseline file that also carries another state (not in the office's `states`): those rows are no baseline units
+    if draw(st.integers(0, 3)) == 0:
+        dn = case["units"][0].get("dist")
+        foreign = []
+        for k in range(draw(st.integers(2, 5))):
+            bd, bg, bo = 40000 + 1000 * k, 30000, 500
+            uid = (f"{dn}_901_q{k}" if dn is not None else f"901_q{k}") if "precinct" in case["gut"] else (f"{dn}_90{k}" if dn is not None else f"90{k}")
+            county = "901" if "precinct" in case["gut"] else f"90{k}"
+            pev = 100 if k else 40
+            fr = 1.6 if k else 0.3
+            foreign.append({"id": uid, "st": "QQ", "county": county, "cls": case["units"][0]["cls"], "dist": dn, "bd": bd, "bg": bg, "bo": bo, "x1": 0.0, "x2": 0.0,
+                            "status": "foreign", "feed": {"pev": pev, "rd": int(bd * fr), "rg": int(bg * fr), "ro": int(bo * fr)}})
+        case["foreign"] = foreign
     return case
 
 
@@ -100,10 +121,16 @@ def check_case(case, ctx):
     ctx.label("pattern:" + case.get("pattern", "?"))
     if any(e in case.get("ptr_alias", []) for e in req["estimands"]):
         ctx.label("baseline_through_config_pointer")
-    fit_ids = [uid for uid, c, rep in zip(ut["geographic_unit_fips"], cats, ut["reporting"]) if c == "expected" and int(rep) == 1]
-    non_ids = [uid for uid, c, rep in zip(ut["geographic_unit_fips"], cats, ut["reporting"]) if c == "expected" and int(rep) == 0]
+    # R = the modelled reporting units, from the reference categorisation of the case (eligibility rules of C09; the
+    # outlier models' own flags are the observed ones)
+    fit_ids = [r["id"] for r in recs if r["baseline"] and r["cat"] == ref.EXPECTED and r["reporting"]]
+    non_ids = [r["id"] for r in recs if r["baseline"] and r["cat"] == ref.EXPECTED and not r["reporting"]]
     if not fit_ids or not non_ids:
         return
+    if case.get("foreign"):
+        ctx.label("baseline_rows_of_a_state_outside_the_config")
+    if case.get("nan_unrequested"):
+        ctx.label("missing_count_in_an_unrequested_column")
     row = {uid: i for i, uid in enumerate(ut["geographic_unit_fips"])}
     any_nontrivial = False
     for e in req["estimands"]:
